@@ -13,6 +13,8 @@ pub static LIVE_BYTES: AtomicIsize = AtomicIsize::new(0);
 pub static PROTECTED: AtomicUsize = AtomicUsize::new(0);
 pub static PROTECTED_FREES: AtomicUsize = AtomicUsize::new(0);
 pub static ZERO_SIZED_ALLOCS: AtomicUsize = AtomicUsize::new(0);
+/// non-zero: freed blocks are overwritten with 0xDD before they are returned to the system allocator
+pub static POISON: AtomicUsize = AtomicUsize::new(0);
 
 unsafe impl GlobalAlloc for Counting {
     unsafe fn alloc(&self, l: Layout) -> *mut u8 {
@@ -30,6 +32,10 @@ unsafe impl GlobalAlloc for Counting {
             return;
         }
         LIVE_BYTES.fetch_sub(l.size() as isize, SeqCst);
+        // poison what is freed: a read after free then sees 0xDD instead of the old contents
+        if POISON.load(SeqCst) != 0 {
+            core::ptr::write_bytes(p, 0xDD, l.size());
+        }
         System.dealloc(p, l)
     }
     unsafe fn realloc(&self, p: *mut u8, l: Layout, new_size: usize) -> *mut u8 {
